@@ -6,13 +6,14 @@ From PIQP Require Import Base Data Bounds PrecondDense KKTDense IPM API Store.
 Section Proofs.
 Variable K : Consts.
 Variable ident : bool.
+Variable spc : bool.
 Variable junk : F.
 Variable cp_bits : Z.
 
-Notation api_call := (api_call K ident junk cp_bits).
-Notation run := (run K ident junk cp_bits).
-Notation outputs := (outputs K ident junk cp_bits).
-Notation final_store := (final_store K ident junk cp_bits).
+Notation api_call := (api_call K ident spc junk cp_bits).
+Notation run := (run K ident spc junk cp_bits).
+Notation outputs := (outputs K ident spc junk cp_bits).
+Notation final_store := (final_store K ident spc junk cp_bits).
 
 (* ---- no call changes the store ---- *)
 Lemma store_unchanged_call st sv c : fst (api_call st sv c) = st.
@@ -24,7 +25,7 @@ Proof.
   destruct o as [c|f]; cbn [Store.run caller_writes].
   - specialize (IH st (next_solver sv (snd (api_call st sv c)))).
     unfold Store.api_call in *. cbn [snd] in IH.
-    destruct (Store.run K ident junk cp_bits st _ t) as [[s2 sv2] os]. exact IH.
+    destruct (Store.run K ident spc junk cp_bits st _ t) as [[s2 sv2] os]. exact IH.
   - apply IH.
 Qed.
 
@@ -74,8 +75,8 @@ Proof.
     unfold Store.api_call in *. cbn [snd] in E. rewrite E.
     set (o := bind (call_blocks s2 c) _).
     specialize (IH (next_solver sv o)).
-    destruct (Store.run K ident junk cp_bits s1 (next_solver sv o) h1) as [[a1 b1] c1].
-    destruct (Store.run K ident junk cp_bits s2 (next_solver sv o) h2) as [[a2 b2] c2].
+    destruct (Store.run K ident spc junk cp_bits s1 (next_solver sv o) h1) as [[a1 b1] c1].
+    destruct (Store.run K ident spc junk cp_bits s2 (next_solver sv o) h2) as [[a2 b2] c2].
     cbn in *. destruct IH as [-> ->]. split; reflexivity.
 Qed.
 
